@@ -455,9 +455,18 @@ pub fn do_navigate_command_string(mathml: Element, nav_command: &'static str) ->
 
         let nav_position = match context_get_variable(context, "NavNode", mathml)?.0 {
             None => NavigationPosition::default(),
-            Some(node) => NavigationPosition {
-                current_node: node,
-                current_node_offset: context_get_variable(context, "NavNodeOffset", mathml)?.1.unwrap() as usize
+            Some(node) => {
+                // "NavNodeOffset" starts out as the character offset inside the start node and the rules don't change it.
+                // It has no meaning for any other node (which might not even be a leaf), so a different node starts at offset 0.
+                let offset = if start_node.attribute_value("id") == Some(node.as_str()) {
+                    context_get_variable(context, "NavNodeOffset", mathml)?.1.unwrap() as usize
+                } else {
+                    0
+                };
+                NavigationPosition {
+                    current_node: node,
+                    current_node_offset: offset
+                }
             }
         };
 
